@@ -1685,7 +1685,15 @@ class Interp:
                 if name == "pop" and not obj:
                     raise PyRaise(ExcVal("IndexError", origin=f"pop@{node.lineno}"))
                 if name == "remove":
-                    raise Unsupported("list.remove", node)
+                    for i_, x_ in enumerate(obj):  # identity / concrete equality, as far as it can be decided
+                        same = x_ is args[0] or (is_concrete(x_) and is_concrete(args[0]) and not isinstance(x_, Rec) and x_ == args[0])
+                        if same:
+                            del obj[i_]
+                            ctx.mutated(obj)
+                            return None
+                    if all(isinstance(x_, Rec) or is_concrete(x_) for x_ in obj):
+                        raise PyRaise(ExcVal("ValueError", origin=f"list.remove@{node.lineno}"))
+                    raise Unsupported("list.remove with symbolic elements", node)
                 r = getattr(obj, name)(*args)
                 ctx.mutated(obj)
                 return r
